@@ -591,6 +591,7 @@ def parent_main(prop: str, tier: str, nshards: int | None = None) -> int:
         "excluded": excluded,
         "replayed_regressions": replayed,
         "shards": nshards,
+        "shard_wall_s": [round(r["wall_s"], 1) for r in results],
         "exhaustive": False,
         "exhaustive_parts": exhaustive_parts,
         "known_findings_reproduced": [e["key"] for e, _ in known_hits],
